@@ -11,6 +11,7 @@ from __future__ import annotations
 
 import itertools
 import os
+import pathlib
 import random
 import tempfile
 
@@ -194,6 +195,17 @@ def nfds():
     return len(os.listdir('/proc/self/fd'))
 
 
+class _FsPathOnly:
+    def __init__(self, p):
+        self._p = p
+
+    def __fspath__(self):
+        return self._p
+
+    def __repr__(self):
+        return '<a PathLike without str()>'
+
+
 class Runner:
     def __init__(self, F, path):
         self.F = F
@@ -213,7 +225,10 @@ class Runner:
             st = simrt.OSS[0]
             st.plan = plan
             fd0 = nfds()
-            objs = [F.FileLock(path, timeout=deft[i], reentrant=re) for i in range(nobj)]
+            # the path is given in the spellings os.PathLike allows: a str, a pathlib.Path, an object that only has __fspath__
+            # (its str() is not the path) - all name the same lock file
+            spell = [path, pathlib.Path(path), _FsPathOnly(path)]
+            objs = [F.FileLock(spell[(i + len(seq)) % 3], timeout=deft[i], reentrant=re) for i in range(nobj)]
             ctxs = {}
             state = {'i': 0, 'final': None}
 
